@@ -225,7 +225,12 @@ CHECKS.update({
                 "every file that holds a record while the pinned one loses it, and the history of that finding computed in the "
                 "model resurrects a deleted key under the pinned bookkeeping only (C20_failed_fsync_*); failed_fsync is compared "
                 "with the real store on every sweep case whose fault hit such an fsync (results, index, counters, file bytes, "
-                "restart). Not proved: what a restart yields after the process went on behind a failed fsync or a failed rollover "
+                "restart). A merge pass stopped by a failing HINT write (model merge_fail_hint, Store/FaultMerge.v): with the repaired order "
+                "of the copy loop (fixes 97ca669, a53a922: statistics row, hint entry, index entry) every index entry stays in an "
+                "existing file and listed by the hint file a restart reads, and every file whose hint file lists something keeps its "
+                "statistics row, for a failure at any entry of any pass from any reachable state; the pinned order and the "
+                "hint-before-row order are refuted, and the histories of both findings are computed in the model under each order "
+                "(C20_failed_hint_write_*, C20_hint_before_row_refuted). Not proved: what a restart yields after the process went on behind a failed fsync or a failed rollover "
                 "behind a completed append, or after a merge pass that failed half-way (sweep only).",
         "design_ref": "DESIGN.md section 8, C20", "note": "Faults are all-or-nothing per call, one per run. The injector sees libc "
                 "calls on *.bitcask.* files. Theorems cover the id discipline, the restart half, and the in-process half for failed appends / creates; the other in-process faults are enumeration only.",
